@@ -113,6 +113,9 @@ def run(tier):
                                    env=dict(os.environ, **ENV)).stdout.strip())
             sizes["%s/annexb=%d" % (name, annexb)] = n
             for proto in (1, 2):
+                # quick: the wrong-framing space (low-overhead bytes with is_annexb=1) only for the first seed and the first protocol
+                if tier == "quick" and annexb == 1 and (name != names[0] or proto != 1):
+                    continue
                 step = max(200, n // 12)
                 for a in range(0, n, step):
                     items.append((name, pre, a, min(n - 1, a + step - 1), annexb, proto, full))
